@@ -259,7 +259,7 @@ impl Triangulation3D {
     /// Triangulates a [`Polygon3D`] without refining it, using the simple ear
     /// clipping algorithm.
     pub fn from_polygon(poly: &Polygon3D) -> Result<Triangulation3D, String> {
-        let mut the_loop = poly.get_closed_loop();
+        let mut the_loop = poly.try_get_closed_loop()?;
         the_loop.close()?;
         // This is a theorem, apparently.
         let mut t = Triangulation3D::with_capacity(the_loop.len() - 2);
